@@ -55,6 +55,9 @@ class _ObjClasses(dict):
             from packaging import _elffile as EF
             self["ELFFile"] = (EF.ELFFile, ["_f", "capacity", "encoding", "_p_fmt", "_p_idx", "machine", "_e_phoff", "flags",
                                             "_e_phentsize", "_e_phnum"])
+            # --- x7: exception objects keep their class and the attributes their own `__init__` sets
+            self["InvalidMetadata"] = (MD.InvalidMetadata, ["field"])
+            self["ExceptionGroup"] = (MD.ExceptionGroup, ["exceptions"])
 
     def __contains__(self, k):
         self._load()
@@ -192,6 +195,11 @@ class _P:
             cls, _ = _OBJ_CLASSES[name]
             if issubclass(cls, tuple):
                 return cls(**fields)
+            if issubclass(cls, BaseException):            # x7: `object.__new__` refuses exception classes
+                o = cls.__new__(cls)
+                for k, v in fields.items():
+                    setattr(o, k, v)
+                return o
             if name == "Tokenizer":                       # x3: a real tokenizer (compiled rules) moved to the position
                 from packaging import _tokenizer as TK
                 o = TK.Tokenizer(fields["source"], rules=TK.DEFAULT_RULES)
@@ -1986,6 +1994,147 @@ FUNCS.update({
 })
 X5_FUNCS |= {"SpecifierSet.__repr__"}
 ORDER_FUNCS |= {"SpecifierSet.__repr__"}
+
+
+# ---- x7: metadata entry points
+def _x7_clean(v):
+    if isinstance(v, str):
+        return "".join(c for c in v if not 0xD800 <= ord(c) <= 0xDFFF)
+    if isinstance(v, list):
+        return [_x7_clean(x) for x in v]
+    if isinstance(v, dict):
+        return {_x7_clean(a): _x7_clean(b) for a, b in v.items()}
+    return v
+
+
+def _x7_strings(v):
+    if isinstance(v, str):
+        yield v
+    elif isinstance(v, (list, tuple)):
+        for x in v:
+            yield from _x7_strings(x)
+    elif isinstance(v, dict):
+        for a, b in v.items():
+            yield from _x7_strings(a)
+            yield from _x7_strings(b)
+
+
+def _x7_ctype_entry(v):
+    import email.message
+    m = email.message.EmailMessage()
+    try:
+        m["content-type"] = v
+        ans = (m.get_content_type().lower(), {k: x for k, x in dict(m["content-type"].params).items() if k in ("charset", "variant")})
+    except Exception as e:
+        ans = Raise(type(e).__name__)
+    return ("EmailMessage.set_content_type", (v,), ans)
+
+
+def _x7_raw_oracle(fn, args, raw):
+    """the answers of the component parsers and of the standard library while the real `fn(*args)` runs, plus the two that
+    cannot be intercepted (`str.lower`, the `EmailMessage` of the content-type converter) for every string of `raw`"""
+    oracle = _record_dotted("packaging.metadata", [n for n in METADATA_ORACLES if n != "str.lower"], fn, args)
+    v = raw.get("description_content_type") if isinstance(raw, dict) else None
+    if isinstance(v, str):
+        oracle.append(_x7_ctype_entry(v))
+    seen = set()
+    for x in _x7_strings(raw):
+        if x not in seen:
+            seen.add(x)
+            oracle.append(("str.lower", (x,), x.lower()))
+    return oracle
+
+
+def _x7_raw_data(rng):
+    from gen import metadata as GM
+    raw = {k: v for k, v in GM.raw_dict(rng)[0].items() if isinstance(k, str)}
+    raw = _x7_clean(raw)
+    r = rng.random()
+    if r < 0.08:
+        raw.pop("metadata_version", None)
+    elif r < 0.16:
+        raw[rng.choice(["nmae", "Name", "_raw", "from_raw", "x-y", "metadata-version", ""])] = rng.choice(["x", ["y"], None])
+    return raw
+
+
+def _x7_wrap_from(f):
+    from packaging import metadata as MD
+
+    def w(data, validate):
+        try:
+            return f(MD.Metadata, data, validate=validate)
+        except (MD.ExceptionGroup, MD.InvalidMetadata) as e:
+            return WireObj("raised", {"exc": e})
+    return w
+
+
+def _g_from_raw(rng):
+    from packaging import metadata as MD
+    raw = _x7_raw_data(rng)
+    validate = rng.random() < 0.9
+    f = lambda d, v: MD.Metadata.from_raw(d, validate=v)
+    return [_x7_raw_oracle(f, [raw, validate], raw), raw, validate]
+
+
+def _g_from_email(rng):
+    """`Metadata.from_email`: `parse_email` answers through the oracle table (its own translation is proved separately)"""
+    from packaging import metadata as MD
+    from props import C18
+    r = rng.random()
+    try:
+        data = C18.gen_document(rng) if hasattr(C18, "gen_document") else None
+    except Exception:
+        data = None
+    if data is None:
+        raw0 = _x7_raw_data(rng)
+        lines = []
+        for k, v in raw0.items():
+            name = MD._RAW_TO_EMAIL_MAPPING.get(k, k)
+            for x in (v if isinstance(v, list) else [v]):
+                if isinstance(x, str) and "\n" not in x and "\r" not in x:
+                    lines.append(f"{name}: {x}")
+        if r < 0.2:
+            lines.append(rng.choice(["Unknown-Field: 1", "Name: twice", "Project-URL: a, b", "Project-URL: a, c", "Keywords: a,b"]))
+        data = "\n".join(lines) + rng.choice(["", "\n\nbody text", "\n\n"])
+        if rng.random() < 0.3:
+            data = data.encode("utf8", "surrogatepass") if rng.random() < 0.9 else data.encode("latin1", "replace") + b"\n\xff"
+    validate = rng.random() < 0.85
+    try:
+        raw, unparsed = MD.parse_email(data)
+        ans = (_x7_clean(raw), _x7_clean(unparsed))
+        bad = any(isinstance(x, str) and any(0xD800 <= ord(c) <= 0xDFFF for c in x) for x in _x7_strings([raw, unparsed]))
+        if bad:
+            return _g_from_email(rng)
+    except Exception as e:
+        raw, ans = {}, Raise(type(e).__name__)
+    f = lambda d, v: MD.Metadata.from_email(d, validate=v)
+    oracle = _x7_raw_oracle(f, [data, validate], raw)
+    oracle.append(("parse_email", (data,), ans))
+    return [oracle, data, validate]
+
+
+def _g_invalid_metadata_init(rng):
+    from packaging import metadata as MD
+    o = MD.InvalidMetadata.__new__(MD.InvalidMetadata)
+    return [o, rng.choice(["name", "version", "x", "", "requires-dist", "Ünï"]), rng.choice(["msg", "", "'name' is invalid"])]
+
+
+def _g_invalid_metadata(rng):
+    from packaging import metadata as MD
+    key = rng.choice([k for k, v in vars(MD.Metadata).items() if isinstance(v, MD._Validator)])
+    cause = rng.choice([None, None, MD.InvalidMetadata("x", "y")])
+    return [vars(MD.Metadata)[key], rng.choice(["{field} is bad", "no placeholder", "{field} and {field}", "{x}", ""]), cause]
+
+
+_MDM = "packaging.metadata"
+FUNCS.update({
+    "InvalidMetadata.__init__": (_MDM, "InvalidMetadata.__init__", _g_invalid_metadata_init),
+    "_Validator._invalid_metadata": (_MDM, "_Validator._invalid_metadata", _g_invalid_metadata),
+    "Metadata.from_raw": (_MDM, "Metadata.from_raw", _g_from_raw),
+    "Metadata.from_email": (_MDM, "Metadata.from_email", _g_from_email),
+})
+EXT_FUNCS |= {"Metadata.from_raw", "Metadata.from_email"}
+X7_WRAP = {"Metadata.from_raw": _x7_wrap_from, "Metadata.from_email": _x7_wrap_from}
 # ------------------------------------------------------------------------------------------------ x7 end
 
 
@@ -2007,6 +2156,8 @@ class _Src:
             f = _resolve(mod, path)
         except Exception as e:
             return "gone " + type(e).__name__
+        if name in X7_WRAP:                                               # x7: classmethods, escaping exception objects
+            f = X7_WRAP[name](f)
         vals = [dec_val(a) for a in (args[2:] if name in EXT_FUNCS else args[1:])]     # the oracle table is not decoded
         undo = None
         if name in ORDER_FUNCS:                                           # x5: the iteration order of frozenset fields
